@@ -76,7 +76,7 @@ def read_gth(atom, charge=None, psp_path="pbe"):
                         h[i, j, j + k] = float(val)
                 # Copy upper triangle elements to the lower triangle
                 for jtmp in range(3):
-                    for ktmp in range(i, 3):
+                    for ktmp in range(jtmp + 1, 3):
                         h[i, ktmp, jtmp] = h[i, jtmp, ktmp]
             psp["rp"] = rp  # Projector radius for each angular momentum
             psp["Nproj_l"] = Nproj_l  # Number of non-local projectors
